@@ -170,6 +170,12 @@ func lateAttempt(r *Rng, conns int) (int32, int32, string) {
 func lifeHTTPLate(c *Ctx, attempts, conns int) {
 	op := fmt.Sprintf("life.http_late attempts=%d conns=%d", attempts, conns)
 	c.Begin(op)
+	g0 := goroutinesOf("chihaya/frontend/http")
+	defer func() { // let the connections' goroutines of the last attempt go before the next scenario takes its baseline
+		for i := 0; i < 200 && goroutinesOf("chihaya/frontend/http") > g0; i++ {
+			time.Sleep(10 * time.Millisecond)
+		}
+	}()
 	obs := func() (o string) {
 		defer func() {
 			if p := recover(); p != nil {
